@@ -75,7 +75,6 @@ func goEnv(extra ...string) []string {
 	return append(env, extra...)
 }
 
-
 func main() {
 	args := os.Args[1:]
 	if len(args) < 2 {
